@@ -85,50 +85,60 @@ type c13objs struct {
 	rt                  *types.Env
 	rv                  *val.Env
 	rtUses, rvUses      int
+	content             *menv
 }
 
-func newC13objs(content *menv) *c13objs {
-	o := &c13objs{}
-	o.hs, o.twinS = content.valueSide(formStruct), content.valueSide(formStruct)
-	o.hp, o.twinP = content.valueSide(formStructPtr), content.valueSide(formStructPtr)
-	o.hm, o.twinM = content.valueSide(formMapIface), content.valueSide(formMapIface)
-	o.rt = content.typeSide(formRaw).(*types.Env)
-	o.rv = content.valueSide(formRaw).(*val.Env)
-	return o
+// objects are created on first use (a history touches at most two kinds)
+func newC13objs(content *menv) *c13objs { return &c13objs{content: content} }
+
+func (o *c13objs) host(kind string) interface{} {
+	switch kind {
+	case "struct":
+		if o.hs == nil {
+			o.hs, o.twinS = o.content.valueSide(formStruct), o.content.valueSide(formStruct)
+		}
+		return o.hs
+	case "*struct":
+		if o.hp == nil {
+			o.hp, o.twinP = o.content.valueSide(formStructPtr), o.content.valueSide(formStructPtr)
+		}
+		return o.hp
+	default:
+		if o.hm == nil {
+			o.hm, o.twinM = o.content.valueSide(formMapIface), o.content.valueSide(formMapIface)
+		}
+		return o.hm
+	}
 }
 
 func (o *c13objs) compileObj(kind string) interface{} {
-	switch kind {
-	case "struct":
-		return o.hs
-	case "*struct":
-		return o.hp
-	case "map":
-		return o.hm
+	if kind != "raw" {
+		return o.host(kind)
+	}
+	if o.rt == nil {
+		o.rt = o.content.typeSide(formRaw).(*types.Env)
 	}
 	return o.rt
 }
 
 func (o *c13objs) invokeObj(kind string) interface{} {
-	switch kind {
-	case "struct":
-		return o.hs
-	case "*struct":
-		return o.hp
-	case "map":
-		return o.hm
+	if kind != "raw" {
+		return o.host(kind)
+	}
+	if o.rv == nil {
+		o.rv = o.content.valueSide(formRaw).(*val.Env)
 	}
 	return o.rv
 }
 
 func (o *c13objs) checkUnmodified(c *Ctx, in string) {
-	if !reflect.DeepEqual(o.hs, o.twinS) {
+	if o.hs != nil && !reflect.DeepEqual(o.hs, o.twinS) {
 		c.fail("C13/host-values-unmodified/struct", in, "host struct unchanged", fmt.Sprintf("%+v", o.hs), "")
 	}
-	if !reflect.DeepEqual(o.hp, o.twinP) {
+	if o.hp != nil && !reflect.DeepEqual(o.hp, o.twinP) {
 		c.fail("C13/host-values-unmodified/*struct", in, "host struct behind the pointer unchanged", fmt.Sprintf("%+v", o.hp), "")
 	}
-	if !reflect.DeepEqual(o.hm, o.twinM) {
+	if o.hm != nil && !reflect.DeepEqual(o.hm, o.twinM) {
 		c.fail("C13/host-values-unmodified/map", in, "host map unchanged", fmt.Sprintf("%+v", o.hm), "")
 	}
 }
@@ -236,10 +246,7 @@ func runC13(c *Ctx) {
 	content := c13Content()
 	partners := []int{0, 13, 22, 26, 18} // a + 1, string(m), union, print(a), m
 	if c.Thorough {
-		partners = nil
-		for i := range pool {
-			partners = append(partners, i)
-		}
+		partners = []int{0, 13, 22, 26, 18, 3, 7, 11, 15, 20, 24, 27, 29, 31}
 	}
 	nRandom := 3000
 	if c.Thorough {
@@ -310,6 +317,7 @@ func c13Repetitions(c *Ctx, run *c13run, pool []c13expr) {
 			continue
 		}
 		first := ""
+		reported := false
 		for i := 0; i < 200; i++ {
 			c.R.Evaluations++
 			res := call(cl, run.content.valueSide(formStruct))
@@ -320,9 +328,11 @@ func c13Repetitions(c *Ctx, run *c13run, pool []c13expr) {
 			got := safeString(res.V)
 			if i == 0 {
 				first = got
-			} else if got != first {
+			} else if got != first && !reported {
+				// keep going: the number of evaluations must not depend on
+				// the (random) repetition at which the order first changes
+				reported = true
 				c.fail("C13/deterministic-result/"+e.class, in, "the same text every time: "+first, got, fmt.Sprintf("repetition %d", i))
-				break
 			}
 		}
 	}
@@ -331,6 +341,7 @@ func c13Repetitions(c *Ctx, run *c13run, pool []c13expr) {
 	c.distinct["rep:"+in] = struct{}{}
 	keys := []string{"k1", "k2", "k3", "k4", "k5", "k6"}
 	first := ""
+	reported2 := false
 	for i := 0; i < 200; i++ {
 		c.R.Evaluations++
 		m := map[string]int{}
@@ -346,9 +357,9 @@ func c13Repetitions(c *Ctx, run *c13run, pool []c13expr) {
 		got := safeString(v)
 		if i == 0 {
 			first = got
-		} else if got != first {
+		} else if got != first && !reported2 {
+			reported2 = true
 			c.fail("C13/deterministic-result/map-result", in, "the same text every time: "+first, got, fmt.Sprintf("repetition %d", i))
-			break
 		}
 	}
 }
